@@ -91,3 +91,75 @@ fn c02_csvdump_file_names_and_slices() {
     }
     finish(suite, cases);
 }
+
+/// child side of the whole-run suites: active only when VERIF_CHILD is set (otherwise it returns at once). It performs ONE
+/// real run (ChainStorage::new + BlockchainParser::start with the csvdump callback) in this process, so that a
+/// `process::exit` in the code under test ends the child, not the suite.
+#[test]
+fn zzchild_whole_run() {
+    use crate::callbacks::csvdump::CsvDump;
+    let spec = match std::env::var("VERIF_CHILD") { Ok(s) => s, Err(_) => return };
+    let p: Vec<&str> = spec.split('\n').collect();
+    let (dir, out, start, verify) = (p[0], p[1], p[2].parse::<u64>().unwrap(), p[3] == "verify");
+    let m = CsvDump::build_subcommand().get_matches_from(vec!["csvdump", out]);
+    let cb = match CsvDump::new(&m) { Ok(c) => c, Err(_) => std::process::exit(4) };
+    match drive_with(std::path::Path::new(dir), "bitcoin", start, None, verify, Box::new(cb)) {
+        Ok(()) => std::process::exit(0),
+        Err(_) => std::process::exit(3),     // what main() does with an Err from start(): non-zero exit
+    }
+}
+fn whole_run_in_child(dir: &std::path::Path, out: &std::path::Path, start: u64, verify: bool) -> (Option<i32>, Vec<String>) {
+    let spec = format!("{}\n{}\n{}\n{}", dir.display(), out.display(), start, if verify { "verify" } else { "plain" });
+    let st = std::process::Command::new(std::env::current_exe().unwrap())
+        .args(["zzchild_whole_run", "--nocapture", "--test-threads", "1"])
+        .env("VERIF_CHILD", spec).stdout(std::process::Stdio::null()).stderr(std::process::Stdio::null()).status().unwrap();
+    let mut names: Vec<String> = std::fs::read_dir(out).unwrap().map(|e| e.unwrap().file_name().to_string_lossy().to_string()).collect();
+    names.sort();
+    (st.code(), names)
+}
+fn is_final_name(n: &str) -> bool {
+    ["blocks-", "transactions-", "tx_in-", "tx_out-"].iter().any(|p| n.starts_with(p)) && n.ends_with(".csv")
+}
+/// C09 (bounded: a 5-block chain, one flipped bit in tx data / merkle field / prev field of each height 1..=4, starts 1 and h):
+/// a --verify run over a changed block ends with a non-zero exit status and leaves no final-named output file; the
+/// unchanged chain ends with status 0 and the four final-named files (control: the child mechanism works)
+#[test]
+fn c09_failed_run_exit_status_and_no_final_output() {
+    let suite = "c09_failed_run_exit_status_and_no_final_output";
+    let mut k = 0u32;
+    let counts = [1usize, 2, 3, 5, 4];
+    let chain = make_chain(5, &mut |h| (1..counts[h as usize]).map(|_| { k += 1; let mut id = [0u8; 32]; id[..4].copy_from_slice(&k.to_le_bytes());
+        TxSpec::new(vec![TxIn::new(id, 0, vec![0x51])], vec![TxOut::new(k as u64, vec![0x6a, 0x01, k as u8])]) }).collect());
+    let mut cases = 0;
+    // control
+    { cases += 1;
+      let d = simple_dir(&chain); d.write();
+      let out = tempfile::tempdir().unwrap();
+      let (code, names) = whole_run_in_child(d.path(), out.path(), 1, true);
+      check(code == Some(0) && names.iter().filter(|n| is_final_name(n)).count() == 4, suite, "C09:consistent_chain_run_succeeds_with_final_named_output",
+            "consistent 5-block chain, --verify --start 1", &format!("exit {:?}, files {:?}", code, names), "exit 0 and the four final-named csv files"); }
+    let mut rng = Rng::new(909);
+    for h in 1..5usize {
+        let raw = chain[h].ser();
+        for (what, pos) in [("prev-hash field", 4 + rng.below(32) as usize), ("merkle-root field", 36 + rng.below(32) as usize), ("transaction data", 81 + rng.below((raw.len() - 81) as u64) as usize)] {
+            let mut d = DataDir::new();
+            for (i, b) in chain.iter().enumerate() {
+                if i == h { let mut m = raw.clone(); m[pos] ^= 1u8 << rng.below(8); let off = d.put_block(0, 0xd9b4bef9, &m, &[]);
+                    d.recs.push(IndexRec { hash: b.hash(), version: 1, height: i as u64, status: ST_ACTIVE, ntx: 1, file: 0, offset: off }); }
+                else { d.add(0, i as u64, b, ST_ACTIVE); }
+            }
+            d.write();
+            for s in [1u64, h as u64] {
+                if s == h as u64 && h == 1 { continue; }
+                cases += 1;
+                let out = tempfile::tempdir().unwrap();
+                let (code, names) = whole_run_in_child(d.path(), out.path(), s, true);
+                let inp = format!("height {} bit flip in {} (byte {}), --verify --start {}", h, what, pos, s);
+                check(code != Some(0), suite, "C09:failed_verify_run_exits_non_zero", &inp, &format!("exit {:?}", code), "non-zero exit status");
+                let finals: Vec<&String> = names.iter().filter(|n| is_final_name(n)).collect();
+                check(finals.is_empty(), suite, "C09:failed_verify_run_leaves_no_final_named_output", &inp, &format!("files {:?}", names), "no final-named csv file");
+            }
+        }
+    }
+    finish(suite, cases);
+}
